@@ -340,6 +340,11 @@ static void parseSanitizer(ChildOutcome& co)
     co.sanKind = t.substr(q, e - q);
     if (co.sanKind == "attempting") co.sanKind = "bad-free";
     if (co.sanKind == "requested") co.sanKind = "allocation-size-too-big";
+    // one out-of-bounds access shows up as heap/stack/global overflow or as SEGV depending on where it lands
+    if (co.sanKind == "SEGV" || co.sanKind == "heap-buffer-overflow" || co.sanKind == "stack-buffer-overflow" ||
+        co.sanKind == "global-buffer-overflow" || co.sanKind == "unknown-crash" || co.sanKind == "stack-overflow" ||
+        co.sanKind == "dynamic-stack-buffer-overflow" || co.sanKind == "container-overflow")
+      co.sanKind = "bad-access";
   }
   else if ((p = t.find("runtime error: ")) != std::string::npos)
   {
@@ -857,6 +862,26 @@ int simkitMain(int argc, char** argv)
       RunResult r2 = w->runPlan(p);
       bool same = (r2.loghash == r.loghash) && r2.viol.size() == r.viol.size();
       for (size_t q = 0; same && q < r.viol.size(); q++) same = (r.viol[q].sig == r2.viol[q].sig);
+      if (!same)
+      {
+        // wall-clock is a detector of last resort: a time-out that does not repeat (loaded machine) is dropped,
+        // everything else must repeat exactly
+        bool onlyTimeouts = true;
+        std::vector<Violation> kept;
+        for (auto& v : r.viol)
+        {
+          if (hasSig(r2, v.sig)) { kept.push_back(v); continue; }
+          if (v.sig.find("|timeout|") == std::string::npos) onlyTimeouts = false;
+        }
+        for (auto& v : r2.viol) if (!hasSig(r, v.sig) && v.sig.find("|timeout|") == std::string::npos) onlyTimeouts = false;
+        if (onlyTimeouts)
+        {
+          counters["discarded.timeout-not-repeated"]++;
+          r.viol = kept;
+          same = true;
+          if (r.viol.empty()) { nviolRuns--; continue; }
+        }
+      }
       if (!same)
       {
         nondet++;
